@@ -314,3 +314,57 @@ def o_split_join(seq: str, npos: int, term: bool, p0: int = 0, p1: int = 0, excl
         if d[0] != seq[idx] or (d[7] or []) != ([(0, res[idx][1])] if res[idx][1] else []):
             return _fail(why="split piece", idx=idx, got=d)
     return True
+
+
+_WRAP_OPS = ("reverse", "shift", "shuffle", "sort", "span", "split", "count")
+
+
+def o_wrappers(seq: str, npos: int, glob, op: str, as_str: bool, n: int = 0, swap: bool = False, i: int = 0, j: int = 1,
+               p0: int = 0, p1: int = 0, excl=()) -> bool:
+    """The module-level functions (peptacular.reverse / shift / shuffle / sort / span_to_sequence / split / count_residues) given the
+    annotation object or its ProForma string return the serialization of what the corresponding annotation method returns (which the
+    other obligations compare with the definition), and leave the object they were given unchanged."""
+    import peptacular.sequence.sequence_funcs as SF
+    from peptacular.proforma.proforma_parser import parse
+    pos = [p0, p1][:npos]
+    a = _build(seq, pos, glob, None)
+    before = D.dump(a)
+    arg = a.serialize() if as_str else a
+    if op == "reverse":
+        got, want = SF.reverse(arg, swap_terms=swap), a.reverse(swap_terms=swap)
+    elif op == "shift":
+        got, want = SF.shift(arg, n), a.shift(n)
+    elif op == "shuffle":
+        got, want = SF.shuffle(arg, seed=7), a.shuffle(7)
+    elif op == "sort":
+        got, want = SF.sort(arg), a.sort_residues()
+    elif op == "span":
+        got, want = SF.span_to_sequence(arg, (i, j, 0)), a.slice(i, j)
+    elif op == "split":
+        got, want = SF.split(arg), list(a.split())
+    else:
+        got, want = SF.count_residues(arg), a.count_residues()
+    if D.dump(a) != before:
+        return _fail(why="the module-level function changed the annotation it was given", op=op)
+    if op == "count":
+        if dict(got) != dict(want):
+            return _fail(why="count_residues: function and method disagree", got=dict(got), want=dict(want))
+        # and both are the multiset of the single-residue pieces
+        pieces = [x.serialize() for x in a.split()]
+        if dict(want) != {k: pieces.count(k) for k in pieces}:
+            return _fail(why="count_residues is not the multiset of the split pieces", got=dict(want))
+        return True
+    if op == "split":
+        if not isinstance(got, list) or len(got) != len(want):
+            return _fail(why="split: number of pieces", got=repr(got))
+        pairs = list(zip(got, want))
+    else:
+        pairs = [(got, want)]
+    for g, w in pairs:
+        if not isinstance(g, str):
+            return _fail(why="module-level function did not return a string", op=op)
+        if g != w.serialize():
+            return _fail(why="module-level function differs from the annotation method", op=op, got=g, want=w.serialize())
+        if len(w) > 0 and D.norm_empty(D.dump(parse(g))) != D.norm_empty(D.dump(w)):
+            return _fail(why="module-level result does not parse back to the method's result", op=op, got=g)
+    return True
